@@ -9,7 +9,7 @@
      is made only for units < 2^31 (elt_ok) and is refuted beyond (wchar_unsigned_refuted).     *)
 From Coq Require Import NArith ZArith List Bool.
 From ST Require Import Base.Outcome Base.Units Str.Model Str.CompareSpec Str.CompareModel Str.CompareProofs.
-From ST Require Str.LeafBridge Gen.Leaf.
+From ST Require Str.LeafBridge Str.LoopBridgeCompare Gen.Leaf.
 Import ListNotations.
 Local Open Scope N_scope.
 
@@ -211,3 +211,27 @@ Theorem case_folding_matches_source : forall c, c < 256 ->
   ST.Str.LeafBridge.uchar (ST.Gen.Leaf.src_cl_fast_upper (ST.Str.LeafBridge.schar c)) = cl_fast_upper c.
 Proof. exact (fun c H => conj (ST.Str.LeafBridge.cl_fast_lower_matches_source c H) (ST.Str.LeafBridge.cl_fast_upper_matches_source c H)). Qed.
 Print Assumptions case_folding_matches_source.
+
+(* ---- tie by translation, loops: the case-insensitive comparison functions of st_string_priv.h, compare_ci(left, right,
+   fsize) (a while loop over two pointers), compare_ci(left, lsize, right, rsize) and compare_ci(..., maxlen), are
+   translated from the CURRENT headers into Gen/Leaf.v (fuelled Fixpoint, pointers as array + index); on byte arrays of
+   any length, with enough fuel, they return exactly what the model functions of every theorem above return ---- *)
+Theorem ci_compare_loop_matches_source : forall l r n fuel,
+  ST.Str.LoopBridgeCompare.bytes l -> ST.Str.LoopBridgeCompare.bytes r -> (n <= length l)%nat -> (n <= length r)%nat ->
+  (Z.of_nat n < 18446744073709551616)%Z -> (n < fuel)%nat ->
+  exists z, compare_ci_n l 0 r 0 n = Ok z /\
+            ST.Gen.Leaf.src_compare_ci fuel (ST.Str.LoopBridgeCompare.arr l) (ST.Str.LoopBridgeCompare.arr r) (Z.of_nat n) = Some z.
+Proof. exact ST.Str.LoopBridgeCompare.compare_ci_matches_source. Qed.
+Print Assumptions ci_compare_loop_matches_source.
+
+Theorem ci_compare_overloads_match_source : forall l r lsize rsize maxlen fuel,
+  ST.Str.LoopBridgeCompare.bytes l -> ST.Str.LoopBridgeCompare.bytes r ->
+  lsize < 18446744073709551616 -> rsize < 18446744073709551616 -> maxlen < 18446744073709551616 ->
+  (N.to_nat (N.min (N.min lsize maxlen) (N.min rsize maxlen)) <= length l)%nat ->
+  (N.to_nat (N.min (N.min lsize maxlen) (N.min rsize maxlen)) <= length r)%nat ->
+  (N.to_nat (N.min (N.min lsize maxlen) (N.min rsize maxlen)) < fuel)%nat ->
+  exists z, compare5 CaseInsensitive l lsize r rsize maxlen = Ok z /\
+            ST.Gen.Leaf.src_compare_ci_5 fuel (ST.Str.LoopBridgeCompare.arr l) (Z.of_N lsize) (ST.Str.LoopBridgeCompare.arr r)
+              (Z.of_N rsize) (Z.of_N maxlen) = Some z.
+Proof. exact ST.Str.LoopBridgeCompare.compare_ci_5_matches_source. Qed.
+Print Assumptions ci_compare_overloads_match_source.
